@@ -95,12 +95,80 @@ def gen_program(r):
 
 _GEN = {}
 
+_LINE = """
+        <sbitLineMetrics direction="%s">
+          <ascender value="%d"/><descender value="0"/><widthMax value="%d"/>
+          <caretSlopeNumerator value="1"/><caretSlopeDenominator value="0"/><caretOffset value="0"/>
+          <minOriginSB value="0"/><minAdvanceSB value="0"/><maxBeforeBL value="%d"/><minAfterBL value="0"/>
+          <pad1 value="0"/><pad2 value="0"/>
+        </sbitLineMetrics>"""
+
+
+def _metrics_xml(kind, h_, w_, adv):
+    if kind == "Big":
+        return '<BigGlyphMetrics><height value="%d"/><width value="%d"/><horiBearingX value="0"/><horiBearingY value="%d"/><horiAdvance value="%d"/><vertBearingX value="0"/><vertBearingY value="0"/><vertAdvance value="%d"/></BigGlyphMetrics>' % (h_, w_, h_, adv, adv)
+    return '<SmallGlyphMetrics><height value="%d"/><width value="%d"/><BearingX value="0"/><BearingY value="%d"/><Advance value="%d"/></SmallGlyphMetrics>' % (h_, w_, h_, adv)
+
+
+def gen_bitmap_ttx(r, names):
+    """EBLC/EBDT for some of the glyphs: one or two strikes, every index subtable format (1-5) and the
+    monochrome image formats (1, 2, 5, 6, 7), glyph images of different sizes, and - where the format has a
+    metrics record in the index subtable as well as on each glyph - index metrics that differ from the glyphs'."""
+    strikes_l, strikes_d = [], []
+    gids = list(range(1, len(names)))
+    for si in range(r.randint(1, 2)):
+        ppem = r.choice([8, 12])
+        start = r.randrange(1, max(2, len(names) - 4))
+        count = r.randint(2, min(5, len(names) - start))
+        run = gids[start - 1 : start - 1 + count]
+        ifmt = r.choice([1, 2, 3, 4, 5])
+        imgfmt = r.choice({1: [1, 2, 6, 7], 3: [1, 2, 6, 7], 4: [1, 2, 6, 7], 2: [5, 5, 6, 7, 1], 5: [5, 5, 6, 7, 2]}[ifmt])
+        fixed = ifmt in (2, 5)
+        fh, fw = r.randint(2, 8), r.randint(3, 14)
+        recs = []
+        for g in run:
+            h_, w_ = (fh, fw) if fixed else (r.randint(1, 8), r.randint(1, 14))
+            if imgfmt in (1, 6):
+                nbytes = h_ * ((w_ + 7) // 8)
+            else:
+                nbytes = (h_ * w_ + 7) // 8
+            data = bytes(r.randrange(256) for _ in range(nbytes))
+            if imgfmt in (1, 6) and w_ % 8:
+                # byte-aligned rows: the bits after the last pixel of a row are padding, kept zero
+                rb = (w_ + 7) // 8
+                keep = (0xFF << (8 - w_ % 8)) & 0xFF
+                data = b"".join(data[k_ * rb : k_ * rb + rb - 1] + bytes([data[k_ * rb + rb - 1] & keep]) for k_ in range(h_))
+            if imgfmt in (2, 5, 7) and (h_ * w_) % 8:
+                data = data[:-1] + bytes([data[-1] & (0xFF << (8 - (h_ * w_) % 8)) & 0xFF])
+            recs.append((g, h_, w_, data))
+        mk = {1: "Small", 2: "Small", 5: None, 6: "Big", 7: "Big"}[imgfmt]
+        msize = {None: 0, "Small": 5, "Big": 8}[mk]
+        body = ""
+        if fixed:
+            image_size = msize + len(recs[0][3])
+            # index-level metrics: the real ones when the glyphs have none of their own (format 5), otherwise
+            # redundant - zeroed or different, as tools that ignore them leave them
+            im = (fh, fw, fw + 1) if imgfmt == 5 else r.choice([(0, 0, 0), (fh, fw, fw + 1), (1, 1, 1)])
+            body += '<imageSize value="%d"/>%s' % (image_size, _metrics_xml("Big", *im))
+        for g, h_, w_, data in recs:
+            body += '<glyphLoc id="%d" name=%s/>' % (g, _xml_attr(names[g]))
+        strikes_l.append('<strike index="%d"><bitmapSizeTable>%s%s<colorRef value="0"/><startGlyphIndex value="%d"/><endGlyphIndex value="%d"/><ppemX value="%d"/><ppemY value="%d"/><bitDepth value="1"/><flags value="1"/></bitmapSizeTable><eblc_index_sub_table_%d imageFormat="%d" firstGlyphIndex="%d" lastGlyphIndex="%d">%s</eblc_index_sub_table_%d></strike>' % (si, _LINE % ("hori", ppem, 14, ppem), _LINE % ("vert", ppem, 14, ppem), run[0], run[-1], ppem, ppem, ifmt, imgfmt, run[0], run[-1], body, ifmt))
+        glyphs_xml = ""
+        for g, h_, w_, data in recs:
+            glyphs_xml += '<ebdt_bitmap_format_%d name=%s>%s<rawimagedata>%s</rawimagedata></ebdt_bitmap_format_%d>' % (imgfmt, _xml_attr(names[g]), _metrics_xml(mk, h_, w_, w_ + 1) if mk else "", data.hex(), imgfmt)
+        strikes_d.append('<strikedata index="%d">%s</strikedata>' % (si, glyphs_xml))
+    return '<?xml version="1.0" encoding="UTF-8"?>\n<ttFont><EBLC><header version="2.0"/>%s</EBLC><EBDT><header version="2.0"/>%s</EBDT></ttFont>' % ("".join(strikes_l), "".join(strikes_d))
+
+
+def _xml_attr(s_):
+    return '"' + s_.replace("&", "&amp;").replace("<", "&lt;").replace(">", "&gt;").replace('"', "&quot;") + '"'
+
 
 def gen_font(i):
     if i not in _GEN:
         from fontTools.fontBuilder import FontBuilder
         from fontTools.pens.ttGlyphPen import TTGlyphPen
-        from fontTools.ttLib import newTable
+        from fontTools.ttLib import TTFont, newTable
         from fontTools.ttLib.tables.ttProgram import Program
 
         r = prng.sub("c03-gen", i)
@@ -152,6 +220,18 @@ def gen_font(i):
         b = io.BytesIO()
         fb.font.save(b)
         _GEN[i] = b.getvalue()
+        if i % 3 == 1:
+            # embedded bitmap strikes (no corpus font has EBLC/EBDT); kept only if the library accepts them
+            try:
+                f2 = TTFont(io.BytesIO(_GEN[i]), recalcTimestamp=False)
+                f2.importXML(io.BytesIO(gen_bitmap_ttx(r, names).encode("utf-8")))
+                b2 = io.BytesIO()
+                f2.save(b2)
+                f3 = TTFont(io.BytesIO(b2.getvalue()), recalcTimestamp=False)
+                f3.ensureDecompiled()
+                _GEN[i] = b2.getvalue()
+            except Exception:
+                pass
     return _GEN[i]
 
 
